@@ -29,11 +29,18 @@ deriving Repr, DecidableEq
 
 /-! ### Strings -/
 
+/-- `strings.Split(s, string(c))` on characters: `""` gives `[""]`, `"a,"` gives `["a", ""]` -/
+def splitOnChar (c : Char) : List Char → List (List Char)
+  | [] => [[]]
+  | x :: xs =>
+    match splitOnChar c xs with
+    | [] => [[]]
+    | hd :: tl => if x == c then [] :: hd :: tl else (x :: hd) :: tl
+
 /-- `ntskeServerFromRemoteAddr`: second comma-separated field, panic when there is none -/
 def ntskeServerFromRemoteAddr (remoteAddr : String) : Res String :=
-  let split := remoteAddr.splitOn ","
-  match split with
-  | _ :: s :: _ => .ok s
+  match splitOnChar ',' remoteAddr.toList with
+  | _ :: s :: _ => .ok (String.ofList s)
   | _ => .panic "remote address has wrong format"
 
 def lastIndexOf (l : List Char) (c : Char) : Option Nat :=
@@ -352,7 +359,7 @@ structure SyncConfig where
   peerClockCutoff : Int
   syncTimeout : Int
   syncInterval : Int
-deriving Repr
+deriving Repr, DecidableEq
 
 /-- the defaults of `syncConfig` -/
 def defaultReferenceClockImpact : F64 := F64.ofConst 125 100
